@@ -65,3 +65,38 @@ Proof.
   exists (line_at 2040), [97], [1; 2; 3].
   split; [apply line_at_ok; unfold BUFSZ; lia|]. vm_compute. reflexivity.
 Qed.
+
+(* IP of an address whose text does not fit: the call returned with the index PAST the buffer, and ToString panicked *)
+Lemma asfound_index_past_refuted :
+  exists l name t l', line_ok l /\ f_ip_af l name (Some t) = Ok l' /\ (BUFSZ < index l')%nat /\ to_string l' = Panic.
+Proof.
+  exists (line_at 2040), [97], [49; 48; 46; 48; 46; 48; 46; 49]. eexists.
+  split; [apply line_at_ok; unfold BUFSZ; lia|]. split; [vm_compute; reflexivity|]. split; vm_compute; [lia|reflexivity].
+Qed.
+
+(* ---- the same witnesses on the repaired code *)
+
+Lemma repaired_ip6_run2 :
+  text_or_nil (f_ipslice (line_at 0) [97] (Some ip_run2)) = [32; 97; 61; 49; 58; 58; 50; 58; 51; 58; 52; 58; 53; 58; 54].  (* " a=1::2:3:4:5:6" *)
+Proof. vm_compute. reflexivity. Qed.
+
+Lemma repaired_ip6_exact_fit :
+  is_ok (f_ipslice (line_at 2038) [97] (Some ip_lla)) = true /\
+  List.length (text_or_nil (f_ipslice (line_at 2038) [97] (Some ip_lla))) = BUFSZ.
+Proof. split; vm_compute; reflexivity. Qed.
+
+Lemma repaired_iparray_ip4 :
+  text_or_nil (f_ip_array (line_at 0) [97] [Some [1; 2; 3; 4]; Some [5; 6; 7; 8]])
+  = text_of (line_at 0) ++ spec_text (OIPArr [97] [Some [1; 2; 3; 4]; Some [5; 6; 7; 8]]).
+Proof. vm_compute. reflexivity. Qed.
+
+Lemma repaired_iparray_room : is_ok (f_ip_array (line_at 2012) [97] [Some ip_full]) = true.
+Proof. vm_compute. reflexivity. Qed.
+
+Lemma repaired_bytearray_bound : f_byte_array (line_at 2040) [97] [1; 2; 3] = Ok (line_at 2040).
+Proof. vm_compute. reflexivity. Qed.
+
+Lemma repaired_index_past :
+  match f_ip (line_at 2040) [97] (Some [49; 48; 46; 48; 46; 48; 46; 49]) with Ok l => Nat.leb (index l) BUFSZ | _ => false end = true.
+Proof. vm_compute. reflexivity. Qed.
+
